@@ -15,10 +15,13 @@
    Not.build_description                               | NotMutates: negative := True on the shared object
                                                        | NotFresh:   new transformer, negation flipped   (ni : not_impl)
    AllOf / AnyOf.build_description                     | composite ... (rel_all cw t) / (rel_any cw t): the relationship word is chosen
-                                                       | from the transformer as it is on entry   (cw : comp_words)
+                                                       | from the transformer as it is on entry   (cw : comp_impl)
                                                        | comp_of_source: the four words as they are in the source now (F9b repaired:
                                                        | `"or" if transformation.negative else "and"` and dually);
-                                                       | comp_unfixed: the pre-F9b code, one word whatever the transformer
+                                                       | comp_pre_f9b: the pre-F9b code, one word whatever the transformer
+   _is_composite (F23)                                 | composite_operand cw: is_composite_through when cw_see_through cw (looks through
+                                                       | Not and through a wrapper that keeps the description), else is_composite (the
+                                                       | isinstance test on the operand object: comp_pre_f23, comp_pre_f9b)
    _build_single_line_description_if_suitable          | inside composite  (`if description:` = non-empty string)
    _build_multi_line_description / _make_item          | multi_line / make_item
    operations._log_match_result (description part)     | log_description
@@ -39,17 +42,24 @@ Definition conjugated : transf := {| t_conj := true; t_neg := false |}.      (* 
 Definition set_negative (t : transf) : transf := {| t_conj := t_conj t; t_neg := true |}.
 Definition flip (t : transf) : transf := {| t_conj := t_conj t; t_neg := negb (t_neg t) |}.
 
-(* The relationship word of all_of / any_of under a positive / negative transformer.
+(* How all_of / any_of build their description: the relationship word under a positive / negative transformer, and whether the
+   "an operand is itself a composite" test of the single-line layout looks through Not and description-less wrappers.
    comp_of_source is read off the source (gen/TablesMatchers.v): with fixes/F09b-*.patch the negative word of all_of is "or" and
-   that of any_of is "and" (De Morgan); a source with a single word per composite yields cw_all_neg = cw_all, cw_any_neg = cw_any.
-   comp_unfixed is the pre-F9b variant whatever the source says: the word does not depend on the transformer. *)
-Record comp_words := { cw_all : str; cw_all_neg : str; cw_any : str; cw_any_neg : str }.
-Definition comp_of_source : comp_words :=
-  {| cw_all := rel_and; cw_all_neg := rel_all_neg; cw_any := rel_or; cw_any_neg := rel_any_neg |}.
-Definition comp_unfixed : comp_words :=
-  {| cw_all := rel_and; cw_all_neg := rel_and; cw_any := rel_or; cw_any_neg := rel_or |}.
-Definition rel_all (cw : comp_words) (t : transf) : str := if t_neg t then cw_all_neg cw else cw_all cw.
-Definition rel_any (cw : comp_words) (t : transf) : str := if t_neg t then cw_any_neg cw else cw_any cw.
+   that of any_of is "and" (De Morgan); a source with a single word per composite yields cw_all_neg = cw_all, cw_any_neg = cw_any;
+   with fixes/F23-*.patch the test is composites._is_composite (cw_see_through = true).
+   Labelled pre-fix variants, whatever the source says:
+   comp_pre_f9b: the word does not depend on the transformer, the test is the isinstance test on the operand object;
+   comp_pre_f23: De Morgan words, still the isinstance test on the operand object. *)
+Record comp_impl := { cw_all : str; cw_all_neg : str; cw_any : str; cw_any_neg : str; cw_see_through : bool }.
+Definition comp_of_source : comp_impl :=
+  {| cw_all := rel_and; cw_all_neg := rel_all_neg; cw_any := rel_or; cw_any_neg := rel_any_neg;
+     cw_see_through := single_line_sees_through_of_source |}.
+Definition comp_pre_f9b : comp_impl :=
+  {| cw_all := rel_and; cw_all_neg := rel_and; cw_any := rel_or; cw_any_neg := rel_or; cw_see_through := false |}.
+Definition comp_pre_f23 : comp_impl :=
+  {| cw_all := rel_and; cw_all_neg := rel_or; cw_any := rel_or; cw_any_neg := rel_and; cw_see_through := false |}.
+Definition rel_all (cw : comp_impl) (t : transf) : str := if t_neg t then cw_all_neg cw else cw_all cw.
+Definition rel_any (cw : comp_impl) (t : transf) : str := if t_neg t then cw_any_neg cw else cw_any cw.
 
 (* Some rest when s = p ++ rest *)
 Fixpoint strip_prefix (p s : str) : option str :=
@@ -139,11 +149,24 @@ Definition multi_line (rel : str) (descs : list str) : str := join [nl] (ml_head
 
 Definition is_composite (m : matcher) : bool := match m with AllOf _ | AnyOf _ => true | _ => false end.
 
+(* composites._is_composite: a negated composite, or a composite behind a wrapper that keeps its description, is still worded
+   as a composite  (`matcher.description is NotImplemented` = the model's descr None) *)
+Fixpoint is_composite_through (m : matcher) : bool :=
+  match m with
+  | AllOf _ | AnyOf _ => true
+  | Not m' => is_composite_through m'
+  | Wrapper m' None _ => is_composite_through m'
+  | _ => false
+  end.
+
+Definition composite_operand (cw : comp_impl) (m : matcher) : bool :=
+  if cw_see_through cw then is_composite_through m else is_composite m.
+
 (* _build_composite_description: `descs` builds the descriptions of the operands with the shared transformer, in order *)
-Definition composite (descs : list matcher -> transf -> list str * transf) (ms : list matcher) (rel : str) (t : transf)
+Definition composite (cw : comp_impl) (descs : list matcher -> transf -> list str * transf) (ms : list matcher) (rel : str) (t : transf)
   : str * transf :=
   let multi (t0 : transf) := let '(ds, t1) := descs ms t0 in (multi_line rel ds, t1) in
-  if existsb is_composite ms then multi t
+  if existsb (composite_operand cw) ms then multi t
   else
     let '(ds, t1) := descs ms t in
     if existsb has_newline ds then multi t1
@@ -165,7 +188,7 @@ Definition any_wording (w : anyw) : str :=
 
 Definition jsonify_items_t (l : list pyval) : str := join items_sep (map jsonify l).
 
-Fixpoint describe_st (ni : not_impl) (cw : comp_words) (m : matcher) (t : transf) {struct m} : str * transf :=
+Fixpoint describe_st (ni : not_impl) (cw : comp_impl) (m : matcher) (t : transf) {struct m} : str * transf :=
   match m with
   | EqualTo e => (transform t (fill tpl_equal_to [jsonify e]), t)
   | Comparator c e => (transform t (fill tpl_comparator [cmp_wording c; jsonify e]), t)
@@ -193,13 +216,13 @@ Fixpoint describe_st (ni : not_impl) (cw : comp_words) (m : matcher) (t : transf
       | None => (ret, t)
       end
   | AllOf ms =>
-      composite (fix descs (ms : list matcher) (t : transf) : list str * transf :=
+      composite cw (fix descs (ms : list matcher) (t : transf) : list str * transf :=
                    match ms with
                    | [] => ([], t)
                    | m' :: r => let '(s, t1) := describe_st ni cw m' t in let '(ss, t2) := descs r t1 in (s :: ss, t2)
                    end) ms (rel_all cw t) t
   | AnyOf ms =>
-      composite (fix descs (ms : list matcher) (t : transf) : list str * transf :=
+      composite cw (fix descs (ms : list matcher) (t : transf) : list str * transf :=
                    match ms with
                    | [] => ([], t)
                    | m' :: r => let '(s, t1) := describe_st ni cw m' t in let '(ss, t2) := descs r t1 in (s :: ss, t2)
@@ -218,8 +241,8 @@ Fixpoint describe_st (ni : not_impl) (cw : comp_words) (m : matcher) (t : transf
   end.
 
 (* the rendering of a composite as a function of the operands' descriptions alone (specification side of C17) *)
-Definition layout (ms : list matcher) (rel : str) (ds : list str) : str :=
-  if existsb is_composite ms then multi_line rel ds
+Definition layout (cw : comp_impl) (ms : list matcher) (rel : str) (ds : list str) : str :=
+  if existsb (composite_operand cw) ms then multi_line rel ds
   else if existsb has_newline ds then multi_line rel ds
   else
     let d := join (fill sl_join_format [rel]) ds in
@@ -227,10 +250,10 @@ Definition layout (ms : list matcher) (rel : str) (ds : list str) : str :=
     else match d with [] => multi_line rel ds | _ => d end.
 
 (* matcher.build_description(MatcherDescriptionTransformer()) *)
-Definition describe (ni : not_impl) (cw : comp_words) (m : matcher) : str := fst (describe_st ni cw m fresh).
+Definition describe (ni : not_impl) (cw : comp_impl) (m : matcher) : str := fst (describe_st ni cw m fresh).
 
 (* the sentence of the check: "Expect <hint> <description>" / "Expect <description>" *)
-Definition log_description (ni : not_impl) (cw : comp_words) (hint : option str) (m : matcher) : str :=
+Definition log_description (ni : not_impl) (cw : comp_impl) (hint : option str) (m : matcher) : str :=
   match hint with
   | Some h => fill tpl_expect_hint [h; describe ni cw m]
   | None => fill tpl_expect [describe ni cw m]
@@ -290,17 +313,35 @@ Definition toks_sem (val : nat -> bool) (ts : list tok) : bool :=
   if toks_has_or ts then existsb (lit_sem val) (toks_lits ts) else forallb (lit_sem val) (toks_lits ts).
 
 (* ------------------------------------------------------------------ token-level rendering of nested expressions
-   fexpr: literals combined by non-empty all_of / any_of, nested at will (not_ only on leaves: it is inside the literal).
+   fexpr: literals combined by non-empty all_of / any_of and by not_, nested at will.  (A wrapper that keeps the description --
+   hide_result_details() -- changes neither the wording nor, with fixes/F23, the layout: at this level it is the expression
+   it wraps.)
    doc: what the description shows, with the indentation of the itemised form read as structure: a line of tokens, or a
    list of items, each introduced by "-" and, from the second on, by the relationship word.
-   `single` stands for the length / newline rule of `layout` (any decision function of the operands is allowed); as in
-   `layout`, a composite with a composite operand is never rendered on one line. *)
-Inductive fexpr := FL (l : lit) | FAllN (es : list fexpr) | FAnyN (es : list fexpr).
+   render_under single neg e: the description of e under a transformer whose negation flag is neg.  Not.build_description
+   hands its operand a transformer with the flag flipped, which every build_description below passes on to its operands:
+   each composite picks its relationship word from it (`"or" if transformation.negative else "and"`, dually for any_of:
+   tok_all / tok_any) and each leaf takes its negative form (a literal that is itself a negated leaf takes the positive one:
+   neg_lit).  `single` stands for the length / newline rule of `layout` (any decision function of the flag and of the
+   operands is allowed); as in `layout` with composites._is_composite, a composite with an operand that is a composite --
+   also behind not_ -- is never rendered on one line (fexpr_is_lit looks through FNotN). *)
+Inductive fexpr := FL (l : lit) | FAllN (es : list fexpr) | FAnyN (es : list fexpr) | FNotN (e : fexpr).
 Inductive doc := DLine (ts : list tok) | DItems (items : list (option tok * doc)).
 
-Definition fexpr_is_lit (e : fexpr) : bool := match e with FL _ => true | _ => false end.
-Fixpoint fexpr_lits (es : list fexpr) : list lit :=
-  match es with [] => [] | FL l :: r => l :: fexpr_lits r | _ :: r => fexpr_lits r end.
+Definition neg_lit (neg : bool) (l : lit) : lit := let '(Lit id n) := l in Lit id (xorb neg n).
+Definition tok_all (neg : bool) : tok := if neg then TOr else TAnd.
+Definition tok_any (neg : bool) : tok := if neg then TAnd else TOr.
+
+(* an operand that its parent may join on its own line: a leaf, possibly behind not_ *)
+Fixpoint fexpr_is_lit (e : fexpr) : bool := match e with FL _ => true | FNotN e' => fexpr_is_lit e' | _ => false end.
+(* and the literal it shows under the flag neg *)
+Fixpoint fexpr_lit (neg : bool) (e : fexpr) : option lit :=
+  match e with FL l => Some (neg_lit neg l) | FNotN e' => fexpr_lit (negb neg) e' | _ => None end.
+Fixpoint fexpr_lits (neg : bool) (es : list fexpr) : list lit :=
+  match es with
+  | [] => []
+  | e :: r => match fexpr_lit neg e with Some l => l :: fexpr_lits neg r | None => fexpr_lits neg r end
+  end.
 
 Fixpoint doc_items (rel : tok) (ds : list doc) (first : bool) : list (option tok * doc) :=
   match ds with
@@ -308,49 +349,34 @@ Fixpoint doc_items (rel : tok) (ds : list doc) (first : bool) : list (option tok
   | d :: r => ((if first then None else Some rel), d) :: doc_items rel r false
   end.
 
-Fixpoint render (single : list fexpr -> bool) (e : fexpr) : doc :=
+Fixpoint render_under (single : bool -> list fexpr -> bool) (neg : bool) (e : fexpr) : doc :=
   match e with
-  | FL l => DLine [TLit l]
-  | FAllN es => if forallb fexpr_is_lit es && single es
-                then DLine (single_line_toks TAnd (fexpr_lits es))
-                else DItems (doc_items TAnd (map (render single) es) true)
-  | FAnyN es => if forallb fexpr_is_lit es && single es
-                then DLine (single_line_toks TOr (fexpr_lits es))
-                else DItems (doc_items TOr (map (render single) es) true)
+  | FL l => DLine [TLit (neg_lit neg l)]
+  | FNotN e' => render_under single (negb neg) e'
+  | FAllN es => if forallb fexpr_is_lit es && single neg es
+                then DLine (single_line_toks (tok_all neg) (fexpr_lits neg es))
+                else DItems (doc_items (tok_all neg) (map (render_under single neg) es) true)
+  | FAnyN es => if forallb fexpr_is_lit es && single neg es
+                then DLine (single_line_toks (tok_any neg) (fexpr_lits neg es))
+                else DItems (doc_items (tok_any neg) (map (render_under single neg) es) true)
   end.
+
+(* under MatcherDescriptionTransformer(): the description of the check *)
+Definition render (single : list fexpr -> bool) (e : fexpr) : doc := render_under (fun _ => single) false e.
 
 Fixpoint fexpr_wf (e : fexpr) : bool :=
   match e with
   | FL _ => true
+  | FNotN e' => fexpr_wf e'
   | FAllN es | FAnyN es => match es with [] => false | _ => forallb fexpr_wf es end
   end.
 
 Fixpoint fsem (val : nat -> bool) (e : fexpr) : bool :=
   match e with
   | FL l => lit_sem val l
+  | FNotN e' => negb (fsem val e')
   | FAllN es => forallb (fsem val) es
   | FAnyN es => existsb (fsem val) es
-  end.
-
-(* not_ applied to such an expression.  Not.build_description hands the expression a transformer with the negation flipped,
-   which every build_description below passes on to its operands: each composite picks its relationship word from it
-   (`"or" if transformation.negative else "and"`, dually for any_of: tok_all / tok_any) and each leaf takes its negative
-   form (a literal that is itself a negated leaf takes the positive one: neg_lit).  render_under single false = render single;
-   render_under single true e is the token-level description of not_(e).  The layout rule is the same (it looks at the operand
-   objects, which are the same, and at their descriptions: `single` is any function of the operands and of the flag). *)
-Definition neg_lit (neg : bool) (l : lit) : lit := let '(Lit id n) := l in Lit id (xorb neg n).
-Definition tok_all (neg : bool) : tok := if neg then TOr else TAnd.
-Definition tok_any (neg : bool) : tok := if neg then TAnd else TOr.
-
-Fixpoint render_under (single : bool -> list fexpr -> bool) (neg : bool) (e : fexpr) : doc :=
-  match e with
-  | FL l => DLine [TLit (neg_lit neg l)]
-  | FAllN es => if forallb fexpr_is_lit es && single neg es
-                then DLine (single_line_toks (tok_all neg) (map (neg_lit neg) (fexpr_lits es)))
-                else DItems (doc_items (tok_all neg) (map (render_under single neg) es) true)
-  | FAnyN es => if forallb fexpr_is_lit es && single neg es
-                then DLine (single_line_toks (tok_any neg) (map (neg_lit neg) (fexpr_lits es)))
-                else DItems (doc_items (tok_any neg) (map (render_under single neg) es) true)
   end.
 
 Definition item_is_or (it : option tok * doc) : bool := match fst it with Some TOr => true | _ => false end.
